@@ -33,7 +33,15 @@ pub fn run<A: Cx>(d: &mut Drv<A>, scale: usize) {
             15..=24 if grow => {
                 let k = d.rng.below(7);
                 let xs = d.rand_syms(k);
-                d.emit(json!({"op": "extend", "dst": dst, "syms": xs}));
+                if d.rng.chance(1, 2) {
+                    d.emit(json!({"op": "extend", "dst": dst, "syms": xs}));
+                } else {
+                    // extend from an iterator whose size hint is only an upper bound (or absent)
+                    let adaptor = *d.rng.pick(&crate::drv::ADAPTORS);
+                    let junk = d.rng.range(1, 6);
+                    let via = *d.rng.pick(&["inherent", "trait"]);
+                    d.emit(json!({"op": "extend", "dst": dst, "syms": xs, "adaptor": adaptor, "junk": junk, "via": via}));
+                }
             }
             25..=36 if grow => {
                 let src = d.rand_src(other);
@@ -59,8 +67,17 @@ pub fn run<A: Cx>(d: &mut Drv<A>, scale: usize) {
             85..=86 => {
                 d.emit(json!({"op": "clear", "dst": dst}));
             }
-            87..=90 => {
+            87..=88 => {
                 d.emit(json!({"op": "clone", "dst": dst, "r": other}));
+            }
+            89..=90 => {
+                // built from scratch out of an iterator with a loose size hint
+                let k = d.rng.range(0, 40);
+                let xs = d.rand_syms(k);
+                let adaptor = *d.rng.pick(&crate::drv::ADAPTORS);
+                let junk = d.rng.range(1, 9);
+                let via = *d.rng.pick(&["loosecollect", "looseextend"]);
+                d.emit(json!({"op": "fromsyms", "dst": dst, "c": A::NAME, "via": via, "adaptor": adaptor, "junk": junk, "syms": xs}));
             }
             91..=95 => {
                 let src = d.rand_src(other);
